@@ -143,6 +143,40 @@ def check(ctx: Ctx) -> None:
         from .C09 import check_primary_loop
         check_primary_loop(repo, ob)
 
+    with ctx.obligation("C11.h", "receiver-starts-after-setup") as ob:
+        # EOF may already be pending when the receiver thread starts: everything its termination path reads (the exec pool,
+        # the completion event) must exist before _initreceive() -- a receiver that dies on a missing attribute never runs the ladder
+        from ..terms import evaluator as _evs
+        fsv = repo.func(f"{GB}.WorkerGateway.serve")
+        rc_ = receiver_context(repo)
+        read_in_receiver = set()
+        for q in rc_:
+            if not repo.has_func(q):
+                continue
+            f_ = repo.func(q)
+            if f_.cls is None:
+                continue
+            for n_ in repo.own_nodes(f_):
+                if isinstance(n_, ast.Attribute) and isinstance(n_.value, ast.Name) and n_.value.id == "self" and isinstance(n_.ctx, ast.Load):
+                    read_in_receiver.add(n_.attr)
+        evs_ = _evs(repo, fsv)
+        n_init = 0
+        late = set()
+        for (_p, st_) in evs_.run(limit=20000):
+            ini = [i for i, e in enumerate(st_.events) if e.kind == "call" and e.attr == "_initreceive"]
+            if not ini:
+                continue
+            n_init += 1
+            for e in st_.events[ini[0] + 1:]:
+                if e.kind == "assign" and str(e.target).startswith("self.") and str(e.target).count(".") == 1 and str(e.target)[5:] in read_in_receiver \
+                        and id(e.node) not in late:
+                    late.add(id(e.node))
+                    ob.violation(fsv, e.node, f"`{e.target}` is set up only after the receiver thread was started, but the receiver's code reads it: with the connection "
+                                              "already lost at start-up the receiver dies on the missing attribute and the worker is never terminated",
+                                 construct=f"{e.target} after _initreceive")
+        ob.site(fsv, fsv.node, "serve(): state read by the receiver thread exists before _initreceive()", paths=n_init, attrs=len(read_in_receiver), ok=not late)
+        ob.require(n_init >= 1, "serve(): _initreceive() not found")
+
     # an idle primary thread must be woken by trigger_shutdown, whatever else is still running in the pool
     from .C09 import check_shutdown_wakeup
     check_shutdown_wakeup(ctx, "C11.i")
